@@ -291,3 +291,21 @@ Definition btc_prop (c : list Z * list Z * outcome address * list Z) : bool :=
             eqb_zl (btc_encode (fun _ => digest) a) text
   | Err _ => negb valid
   end.
+
+(* ---- address texts at the HTTP API: (endpoint id, tokens (text, digest of the
+   first 21 decoded bytes), observed verdict: 1 accepted / 0 rejected / 2 other).
+   A single-address parameter is one token; a list parameter is split by the
+   harness at commas and white space (as the API documents). The API accepts iff
+   there is at least one token and every token is the canonical text of a
+   version-0 address with a correct checksum. *)
+Definition api_prop (c : Z * list (list Z * list Z) * Z) : bool :=
+  let '(_, toks, verdict) := c in
+  let ok := negb (Nat.eqb (List.length toks) 0) &&
+            forallb (fun t : list Z * list Z => addr_valid_text (snd t) (fst t)) toks in
+  verdict =? (if ok then 1 else 0).
+Definition api_model (c : Z * list (list Z * list Z) * Z) : bool :=
+  let '(_, toks, verdict) := c in
+  let ok := negb (Nat.eqb (List.length toks) 0) &&
+            forallb (fun t : list Z * list Z =>
+                       match addr_decode (fun _ => snd t) (fst t) with Ok _ => true | Err _ => false end) toks in
+  verdict =? (if ok then 1 else 0).
